@@ -57,6 +57,22 @@ func render09(items []sitem, env *env09, parts map[string]string, ctr *int, src,
 			}
 			src.WriteString(fmt.Sprintf("<%% %s = %d %%>", it.Name, it.Val))
 			env.vars[it.Name] = it.Val
+		case "tolfail":
+			// a function whose body binds names and then fails on an unknown identifier, called where
+			// that failure is tolerated (operand of == / !, a condition): the caller goes on, and
+			// nothing bound inside may be visible afterwards
+			src.WriteString(fmt.Sprintf("<%% let tf%d = fn(v) { let a = 91\n let b = 92\n return v + nosuchname%d } %%>", id, id))
+			switch it.Val % 3 {
+			case 0:
+				src.WriteString(fmt.Sprintf("<%%= if (tf%d(93) == nil) { %%>T<%% } %%>", id))
+				out.WriteString("T")
+			case 1:
+				src.WriteString(fmt.Sprintf("<%%= if (tf%d(93)) { %%>Y<%% } else { %%>N<%% } %%>", id))
+				out.WriteString("N")
+			default:
+				src.WriteString(fmt.Sprintf("<%%= !tf%d(93) %%>", id))
+				out.WriteString("true")
+			}
 		case "define":
 			// contentFor("shared") { probes } : emits nothing here; remembered with its defining scope
 			var bsrc, bout strings.Builder
@@ -136,6 +152,8 @@ func gen09x(r *Rng, depth int, top bool) []sitem {
 			items = append(items, sitem{Kind: "let", Name: name, Val: 1 + r.Intn(8)})
 		case x < 6:
 			items = append(items, sitem{Kind: "set", Name: name, Val: 1 + r.Intn(8)})
+		case x < 7 && r.Intn(3) == 0:
+			items = append(items, sitem{Kind: "tolfail", Val: r.Intn(3)})
 		case x < 7 && r.Intn(2) == 0:
 			k := []string{"define", "replay", "replay"}[r.Intn(3)]
 			if k == "define" && !top {
@@ -162,7 +180,7 @@ func init() {
 	register("C09", func(e *Env) {
 		renderPrelude()
 		e.perShard = 50
-		e.rep.Rule = "nestings to depth 3 of {for, user-function call, partial, contentFor+contentOf with data (the same stored block replayed several times with different data keys and with none), block helper with its own context}, each binding v, with let / shadowing let / assignment / probe statements for names {a, b, v} at every level and a probe of every name after every construct; all single constructs with a fixed body exhaustively + random trees; judged against an environment-chain reference (constructs push a frame, lookups fall through, writes go to the top frame); distinct by template"
+		e.rep.Rule = "nestings to depth 3 of {for, user-function call, partial, contentFor+contentOf with data (the same stored block replayed several times with different data keys and with none), block helper with its own context}, each binding v, and functions that bind names and then fail on an unknown identifier where that is tolerated, with let / shadowing let / assignment / probe statements for names {a, b, v} at every level and a probe of every name after every construct; all single constructs with a fixed body exhaustively + random trees; judged against an environment-chain reference (constructs push a frame, lookups fall through, writes go to the top frame); distinct by template"
 		judge := func(items []sitem, tag string) {
 			parts := map[string]string{}
 			var src, out strings.Builder
@@ -199,6 +217,16 @@ func init() {
 			inner := []sitem{{Kind: "replay", Val: 5, Name: "v"}, {Kind: "let", Name: "a", Val: 6}, {Kind: "let", Name: "b", Val: 7}, {Kind: "probe", Name: "a"}, {Kind: "probe", Name: "v"}, {Kind: "replay", Val: 8, Name: "b"}, {Kind: "replay"}, {Kind: "replay", Val: 9, Name: "v"}, {Kind: "probe", Name: "v"}}
 			judge(append([]sitem{{Kind: "let", Name: "a", Val: 1}, {Kind: "define"}, {Kind: k1, Val: 3, Body: inner}}, tail...), "replay")
 			judge(append([]sitem{{Kind: "define"}, {Kind: "replay", Val: 2, Name: "a"}, {Kind: "replay"}, {Kind: "replay", Val: 3, Name: "b"}, {Kind: "replay", Val: 4, Name: "v"}, {Kind: "replay"}}, tail...), "replay-seq")
+		}
+		for _, k1 := range append([]string{""}, kinds...) {
+			for v := 0; v < 3; v++ {
+				inner := []sitem{{Kind: "let", Name: "a", Val: 6}, {Kind: "tolfail", Val: v}, {Kind: "probe", Name: "a"}, {Kind: "probe", Name: "b"}, {Kind: "probe", Name: "v"}, {Kind: "let", Name: "b", Val: 7}, {Kind: "probe", Name: "b"}}
+				if k1 == "" {
+					judge(append(append([]sitem{{Kind: "let", Name: "v", Val: 2}}, inner...), tail...), "tolfail")
+				} else {
+					judge(append([]sitem{{Kind: "let", Name: "a", Val: 1}, {Kind: "let", Name: "v", Val: 2}, {Kind: k1, Val: 3, Body: inner}}, tail...), "tolfail")
+				}
+			}
 		}
 		n := 120
 		if e.Thorough() {
